@@ -139,7 +139,11 @@ def spawn_part(engine: str, profile: Dict[str, Any], hashseed: int, out: str, ex
                optimize: bool = False) -> subprocess.Popen:
     env = dict(os.environ)
     env["PYTHONHASHSEED"] = str(hashseed)
-    env["PYTHONPATH"] = VERIF + os.pathsep + env.get("PYTHONPATH", "")
+    # Development aid only (never set by the registered commands): run against the
+    # sources of a scratch worktree instead of /repo (the editable install), e.g. to
+    # try a seeded change without touching /repo while other runs use it.
+    alt_src = env.get("VERIF_REPO_SRC")
+    env["PYTHONPATH"] = VERIF + os.pathsep + (alt_src + os.pathsep if alt_src else "") + env.get("PYTHONPATH", "")
     env["PYTHONWARNINGS"] = "ignore"
     cmd = setarch_prefix() + [PY] + (["-O"] if optimize else []) + [
         os.path.join(VERIF, "checkmain.py"), "--part-process",
@@ -296,14 +300,10 @@ def minimise(engine_name: str, plan: Dict[str, Any], violation: Dict[str, Any], 
 # ------------------------------------------------------------------------- check
 
 
-def run_check(prop: str, tier: str, engine_name: str, profile: Dict[str, Any],
-              runs: int, budget_s: float, wall: float, nproc_total: int,
-              level_text: Dict[str, Any], summarize: Callable[[List[Dict[str, Any]]], Dict[str, Any]],
-              properties: Optional[List[str]] = None) -> int:
-    """Runs a batch, judges, minimises, writes evidence and replay files.
-    Returns the process exit code."""
+def run_batch(engine_name: str, profile: Dict[str, Any], runs: int, budget_s: float, wall: float,
+              nproc_total: int) -> Tuple[List[Dict[str, Any]], List[str]]:
+    """One batch of an engine over all hash seeds; returns (result lines, part errors)."""
     t0 = time.time()
-    properties = properties or [prop]
     parts = len(HASHSEEDS)
     nproc = max(1, nproc_total // parts)
     deadline = t0 + budget_s
@@ -336,10 +336,31 @@ def run_check(prop: str, tier: str, engine_name: str, profile: Dict[str, Any],
             with open(of) as f:
                 for line in f:
                     try:
-                        lines.append(json.loads(line))
+                        d = json.loads(line)
+                        d["engine"] = engine_name
+                        lines.append(d)
                     except Exception:
                         part_errors.append("bad json line")
     shutil.rmtree(tmp, ignore_errors=True)
+    return lines, part_errors
+
+
+def run_check(prop: str, tier: str, engine_name, profile: Optional[Dict[str, Any]],
+              runs: int, budget_s: float, wall: float, nproc_total: int,
+              level_text: Dict[str, Any], summarize: Callable[[List[Dict[str, Any]]], Dict[str, Any]],
+              properties: Optional[List[str]] = None) -> int:
+    """Runs one or several batches (engine_name may be a list of stages
+    (engine, profile, runs, budget_s)), judges, minimises, writes evidence and replay
+    files.  Returns the process exit code."""
+    t0 = time.time()
+    properties = properties or [prop]
+    stages = engine_name if isinstance(engine_name, list) else [(engine_name, profile, runs, budget_s)]
+    lines: List[Dict[str, Any]] = []
+    part_errors: List[str] = []
+    for (eng, prof, n, b) in stages:
+        ls, errs = run_batch(eng, prof, n, b, wall, nproc_total)
+        lines.extend(ls)
+        part_errors.extend(errs)
 
     known = load_known_findings()
     lost = [l for l in lines if "lost" in (l.get("record") or {})]
@@ -378,6 +399,7 @@ def run_check(prop: str, tier: str, engine_name: str, profile: Dict[str, Any],
             continue
         reported += 1
         plan = l.get("plan")
+        engine_name = l.get("engine")
         eng = load_engine(engine_name)
         if plan is not None and hasattr(eng, "scripted_plan"):
             plan = eng.scripted_plan(plan, v)
